@@ -6,6 +6,7 @@ import (
 	"fmt"
 	"log"
 	"macsmol/magog/engine"
+	"math"
 	"os"
 	"strings"
 )
@@ -29,6 +30,8 @@ func main() {
 	// ---------- runtime profiling stuff -end- ---------
 
 	scanner := bufio.NewScanner(os.Stdin)
+	// default token limit is 64 KiB; a longer line would end the read loop as if input had ended
+	scanner.Buffer(nil, math.MaxInt32)
 	for !engine.Quit {
 		if !scanner.Scan() {
 			// end of input (GUI closed the pipe or died) - nothing more will ever arrive
